@@ -41,7 +41,7 @@ REQUIRED_TAGS = ['kind=identical', 'kind=compatible', 'pardim=1', 'pardim=2', 'p
                  'dir=invalid', 'orders-differ', 'orders-equal', 'periodicity-differs', 'both-periodic', 'open-only',
                  'rational-mixed', 'rational-both', 'dimension-differs', 'domains-differ', 'float-reparam',
                  'inserted-into-1', 'inserted-into-2', 'shared-knot-mult-differs', 'nothing-to-insert',
-                 'model-exact-map=exact-same', 'interior-mult>=2', 'defect-stream']
+                 'model-exact-map=exact-same', 'interior-mult>=2', 'defect-stream', 'rounded-periodic-input']
 ASSUMPTIONS = ['np.linalg.inv / scipy spsolve inside raise_order are modelled by exact inverses (certificate-checked in the '
                'model); their rounding error is bounded by RTOL times the measured condition number of the collocation matrix',
                'BSplineBasis.reparam divides in floating point: knots are compared to 1e-12, and knots of the two objects that '
@@ -117,7 +117,10 @@ def _pair_bases(rng, pmax, periodic_prob, max_int, mode_choices):
         k = rng.randint(0, p - 2) if (p >= 2 and rng.random() < periodic_prob) else -1
         need = (2 * k + 2) if k >= 0 else 0       # n = (p-1-k) + sum(mult) >= p+k+1
         inter = _interior(rng, p, shared, rng.randint(0, max_int), need)
-        res.append(_basis(p, k, inter, rng=rng, mode=rng.choice(mode_choices)))
+        mode = rng.choice(mode_choices)
+        if k >= 0 and mode == 'float':
+            mode = 'dyadic'       # ghost knots must repeat the period EXACTLY (see _ghost_exact)
+        res.append(_basis(p, k, inter, rng=rng, mode=mode))
     return res
 
 
@@ -146,6 +149,41 @@ def _direction(rng, pardim, i):
     if r in (2, 3):
         return d
     return rng.choice(SPELL[d][1:])
+
+
+def _ghost_exact(b):
+    """Do the ghost knots of a periodic basis spec repeat the interior knots with EXACTLY the period
+    end - start (as rational numbers)?  A placement a*t+b with a not a power of two rounds every knot
+    separately; the constructor accepts such vectors (tolerance) but in exact arithmetic they are not
+    periodic, and what the code does with them depends on how the rounding errors fall."""
+    if b['periodic'] < 0:
+        return True
+    info = gen.basis_info(b)
+    kn = exact.frs(b['knots'])
+    T = exact.fr(info['end']) - exact.fr(info['start'])
+    n = info['n']
+    return all(kn[i + n] == kn[i] + T for i in range(len(kn) - n))
+
+
+def _rounded_periodic_specs(rng, quick):
+    """Periodic bases placed by a non-dyadic affine map (ghost knots periodic only up to rounding)
+    against open / periodic partners.  Model comparison is skipped for these (see `compare`)."""
+    out = []
+    for i in range(24 if quick else 200):
+        p = rng.randint(2, 4)
+        k = rng.randint(0, p - 2)
+        inter = _interior(rng, p, [], rng.randint(1, 3), 2 * k + 2)
+        b1 = _basis(p, k, inter, rng=rng, mode='float')
+        p2 = rng.randint(2, 4)
+        k2 = rng.choice([-1, -1, rng.randint(0, p2 - 2)])
+        b2 = _basis(p2, k2, _interior(rng, p2, [u for u, _ in inter], rng.randint(0, 3), 2 * k2 + 2 if k2 >= 0 else 0),
+                    rng=rng, mode=rng.choice(['dyadic', 'float']))
+        o1 = _obj(rng, [b1], 2, rng.random() < 0.3)
+        o2 = _obj(rng, [b2], 2, rng.random() < 0.3)
+        if i % 2:
+            o1, o2 = o2, o1
+        out.append({'kind': 'identical', 'o1': o1, 'o2': o2, 'direction': None, 'stream': 'rounded-periodic'})
+    return out
 
 
 def _defect_specs(rng, quick):
@@ -210,6 +248,7 @@ def generate(rng, tier):
         o2 = {'bases': [{'order': b['order'], 'knots': [4.0 * t - 3.0 for t in b['knots']], 'periodic': b['periodic']} for b in o1['bases']],
               'cps': o1['cps'], 'rational': o1['rational']}
         specs.append({'kind': 'identical', 'o1': o1, 'o2': o2, 'direction': None})
+    specs += _rounded_periodic_specs(rng, quick)
     specs += _defect_specs(rng, quick)
     return specs
 
@@ -338,7 +377,15 @@ def _cmp_obj(iv, mv, rtol, path):
     return diff(iv[2], mv[2], rtol, ATOL, path=path + '.cps')
 
 
+def _inexact_periodic(s):
+    return any(not _ghost_exact(b) for o in (s['o1'], s['o2']) for b in o['bases'])
+
+
 def compare(s, iv, mv):
+    if _inexact_periodic(s):
+        # the exact model cannot follow rounding-level inconsistencies of the INPUT knot vector; the
+        # oracle alone decides these cases
+        return None
     if isinstance(iv, Err) or not isinstance(iv, dict) or is_err(mv):
         return diff(iv, mv, 0.0, 0.0)
     v = iv['v']
@@ -570,6 +617,8 @@ def classify(s, res=None):
     req = _requested(s['direction'], pd)
     if req is None or len(s['o2']['bases']) != pd:
         return None
+    if _inexact_periodic(s) and 'out of range' in txt:
+        return 'periodic-rounded-ghost-knots-out-of-range'
     small = any(_small(o['bases'][d]) for o in (s['o1'], s['o2']) for d in req)
     if small:
         differ = any(s['o1']['bases'][d]['periodic'] != s['o2']['bases'][d]['periodic'] for d in req)
@@ -601,6 +650,8 @@ def tags(s, res):
     out.append('pardim=%d' % pd)
     if s.get('defect'):
         out += ['defect-stream', 'defect=' + s['defect']]
+    if _inexact_periodic(s):
+        out.append('rounded-periodic-input')
     if o1['rational'] != o2['rational']:
         out.append('rational-mixed')
     elif o1['rational']:
